@@ -397,7 +397,9 @@ fn config(seed: u64, cases: u32) -> Config {
 	c.failure_persistence = None;
 	c.rng_algorithm = RngAlgorithm::ChaCha;
 	c.rng_seed = RngSeed::Fixed(seed);
-	c.max_shrink_iters = 400;
+	c.max_shrink_iters = 2000;
+	// shrinking is bounded by wall-clock (expensive histories re-run per step)
+	c.max_shrink_time = std::env::var("GV_SHRINK_MS").ok().and_then(|s| s.parse().ok()).unwrap_or(40_000);
 	c.max_local_rejects = 1_000_000;
 	c.max_global_rejects = 1_000_000;
 	c.verbose = 0;
